@@ -49,8 +49,13 @@ def gen_call(rng, uid, inline_only):
         return {'op': 'peek', 'prefix': rng.choice(sorted(inline_only, key=str)), 'side': rng.choice(['front', 'back']), 'retry': retry}
     if k < 0.90:
         return {'op': 'set', 'key': rng.choice('ab'), 'value': gen_value(rng, uid, rng.random() < 0.5), 'retry': retry}
-    if k < 0.96:
+    if k < 0.94:
         return {'op': 'get', 'key': rng.choice('ab')}
+    if k < 0.97:
+        # calls whose transaction ends in ROLLBACK when the key is missing (delete / del) or that raise inside it (incr without default):
+        # what the same thread does next must again be a proper transaction
+        return rng.choice([{'op': 'delete', 'key': rng.choice('abz'), 'retry': retry}, {'op': 'delitem', 'key': rng.choice('abz')},
+                           {'op': 'incr', 'key': 'z', 'default': None, 'delta': 1, 'retry': retry}])
     return {'op': 'pop', 'key': rng.choice('ab'), 'retry': retry}
 
 
@@ -85,6 +90,9 @@ def corpus():
          [{'op': 'push', 'value': 'x' * 9, 'prefix': 'q', 'retry': t}]),
         ('peek_vs_pull', [[{'op': 'peek', 'retry': t}, {'op': 'peek', 'side': 'back', 'retry': t}], [{'op': 'pull', 'retry': t}]],
          [{'op': 'push', 'value': 1, 'retry': t}, {'op': 'push', 'value': 'two', 'retry': t}]),
+        ('rollback_then_pull', [[{'op': 'delete', 'key': 'nope', 'retry': t}, {'op': 'pull', 'retry': t}, {'op': 'push', 'value': 3, 'retry': t}],
+                                [{'op': 'incr', 'key': 'nope', 'default': None, 'retry': t}, {'op': 'pull', 'retry': t}]],
+         [{'op': 'push', 'value': 1, 'retry': t}, {'op': 'push', 'value': big, 'retry': t}]),
         ('timeout_pull', [[{'op': 'pull', 'retry': False}], [{'op': 'push', 'value': big, 'retry': False}]], [{'op': 'push', 'value': 5, 'retry': t}]),
     ]
 
